@@ -725,6 +725,7 @@ func RecoverWALData() {
 	for _, fileData := range walFilesData {
 		mBlock := initMetricsBlock(fileData.mId, fileData.segID, fileData.blockNo)
 		isWalFileEmpty := true
+		replayedFiles := make([]string, 0, len(fileData.walFiles))
 		for _, walFileName := range fileData.walFiles {
 			filePath := filepath.Join(baseDir, walFileName)
 			walIterator, err := wal.NewWALReader(filePath)
@@ -749,21 +750,27 @@ func RecoverWALData() {
 				isWalFileEmpty = false
 			}
 			_ = walIterator.Close()
-			err = deleteWalFile(baseDir, walFileName)
-			if err != nil {
-				log.Warnf("RecoverWALData : Failed to delete wal file %s: %v", walFileName, err)
-			}
+			replayedFiles = append(replayedFiles, walFileName)
 		}
 
 		if !isWalFileEmpty {
 			metricsKey, _ := getBaseMetricsKey(fileData.segID, fileData.mId)
 			err := mBlock.flushBlock(metricsKey, fileData.segID, uint16(fileData.blockNo))
 			if err != nil {
+				// the WAL files are the only copy of these datapoints: keep them for the next restart
 				log.Warnf("RecoverWALData :Failed to flush block for shardID=%s, segID=%d, blockNo=%d: %v",
 					fileData.mId, fileData.segID, fileData.blockNo, err)
+				continue
 			}
 		}
 
+		// the rebuilt block is on disk (or there was nothing to rebuild): only now drop the log
+		for _, walFileName := range replayedFiles {
+			err := deleteWalFile(baseDir, walFileName)
+			if err != nil {
+				log.Warnf("RecoverWALData : Failed to delete wal file %s: %v", walFileName, err)
+			}
+		}
 	}
 }
 
@@ -2295,6 +2302,7 @@ func RecoverMNameWALData() {
 	for _, fileData := range walFilesData {
 		ms := initSegment(fileData.segID, strconv.FormatUint(fileData.mId, 10))
 		isWalFileEmpty := true
+		replayedFiles := make([]string, 0, len(fileData.walFiles))
 		for _, walFileName := range fileData.walFiles {
 
 			filePath := filepath.Join(mNameWalDir, walFileName)
@@ -2319,20 +2327,26 @@ func RecoverMNameWALData() {
 				isWalFileEmpty = false
 			}
 			_ = walIterator.Close()
-			err = deleteWalFile(mNameWalDir, walFileName)
-			if err != nil {
-				log.Warnf("RecoverMNameWALData : Failed to delete wal file %s: %v", walFileName, err)
-			}
+			replayedFiles = append(replayedFiles, walFileName)
 		}
 
 		if !isWalFileEmpty {
 			err := ms.FlushMetricNames()
 			if err != nil {
+				// the WAL file is the only copy of these names: keep it for the next restart
 				log.Warnf("RecoverMNameWALData :Failed to flush Metrics Name for shardID=%d, segID=%d,: %v",
 					fileData.mId, fileData.segID, err)
+				continue
 			}
 		}
 
+		// the names are in <segment>.mnm (or there were none): only now drop the log
+		for _, walFileName := range replayedFiles {
+			err := deleteWalFile(mNameWalDir, walFileName)
+			if err != nil {
+				log.Warnf("RecoverMNameWALData : Failed to delete wal file %s: %v", walFileName, err)
+			}
+		}
 	}
 }
 
